@@ -225,6 +225,30 @@ func init() {
 			}
 			rep.Evaluations++
 		}
+		// the statistics as /metrics assembles them (getAllHistograms), for a SAMPLED histogram: count is
+		// the number of observations, kept the number of retained ones
+		{
+			hname := fmt.Sprintf("verif_sampled_count_%d", seed)
+			hid := metrics.AddHistogram(hname, true, nil)
+			for _, n := range []int{100, 7, 4001} {
+				for i := 0; i < n; i++ {
+					metrics.ObserveHist(hid, uint64(1000+i))
+				}
+				ints, _, _ := metrics.VerifAllMetrics()
+				var count uint64
+				found := false
+				for _, m := range ints {
+					if strings.Contains(m.Name, hname) && m.Tgs[metrics.TagStatistic] == "count" {
+						count, found = m.Val, true
+					}
+				}
+				rep.Evaluations++
+				if !found || count != uint64(n) {
+					viol(fmt.Sprintf("a sampled histogram period of %d observations is reported with count %d (found=%v)", n, count, found), "sampled-count", map[string]interface{}{"observations": n, "reported": count})
+					break
+				}
+			}
+		}
 		// what the /metrics endpoint PRINTS is what the registry holds: every value as an unsigned
 		// decimal, also above 2^63 (a counter that wrapped into the upper half, a huge observation)
 		{
